@@ -63,7 +63,7 @@ theorem enum_versus_i64 (k : GoKind) (nm : String) (d : List Char) (allow : Bool
     (h : doParseType (.prim k nm) true d allow = some (t, r)) :
     t = .base .enum ↔
       (kindTag k = some .i64 ∧ GoTy.prim k nm ≠ .prim .int64 "int64" ∧
-       ∃ tv rest, readToken d false = some (tv, rest) ∧ isInfix tv "i64".toList = false) :=
+       ∃ tv rest, readToken d false = some (tv, rest) ∧ isKeyword .i64 tv = false) :=
   enum_rule k nm d allow t r h
 
 /-- spelling: spaces around tag components -/
@@ -79,7 +79,7 @@ theorem scalar_annotation_same (k : GoKind) (nm : String) (allow : Bool) (tag : 
     (hk : kindTag k = some tag) :
     (doParseType (.prim k nm) false [] allow).map (·.1) = some (baseOfTag tag) ∧
     ∀ kw ∈ ["bool", "i8", "byte", "double", "i16", "i32", "i64", "string"],
-      isInfix kw.toList (keywordOf tag).toList = true →
+      isKeyword tag kw.toList = true →
       (doParseType (.prim k nm) true kw.toList allow).map (·.1) = some (baseOfTag tag) :=
   scalar_annotation_redundant k nm allow tag hk
 
@@ -92,7 +92,7 @@ theorem byte_same_as_i8 (nm : String) (allow : Bool) :
 /-- spelling: package-qualified struct name ≡ bare name -/
 theorem qualified_struct_name_same (vt : GoTy) (pkg nm rest : List Char) (hp : identLike pkg)
     (hn : identLike nm) (hrest : stopsIdent rest) (hnodot : ∀ r, rest ≠ '.' :: r)
-    (hkw1 : isInfix pkg "struct".toList = false) (hkw2 : isInfix nm "struct".toList = false)
+    (hkw1 : isKeyword .strct pkg = false) (hkw2 : isKeyword .strct nm = false)
     (hend : ∃ tok sp, readToken rest true = some (tok, sp) ∧ (tok = [] ∨ tok = [':'] ∨ tok = ['>']))
     (hnamed : vt.name ≠ "") :
     matchAnnot vt .strct (pkg ++ '.' :: nm ++ rest) = matchAnnot vt .strct (nm ++ rest) :=
@@ -103,7 +103,7 @@ theorem accepted_schema_ok (U : Universe) : (schemaOf U).ok = true := schemaOf_o
 
 /- non-vacuity: the hypotheses of the spelling theorems are met by ordinary tags -/
 example : identLike "base".toList ∧ identLike "Msg".toList ∧ stopsIdent ">".toList ∧
-    isInfix "base".toList "struct".toList = false := by
+    isKeyword .strct "base".toList = false := by
   refine ⟨⟨'b', "ase".toList, by decide, by decide, by decide⟩,
     ⟨'M', "sg".toList, by decide, by decide, by decide⟩, ?_, by decide⟩
   intro c r h
